@@ -103,7 +103,7 @@ func (o fdOp) String() string {
 		return fmt.Sprintf("svcterm(k%d)", o.A)
 	case "pstart":
 		return fmt.Sprintf("pstart(c%d,%s)", o.S, o.N)
-	case "pdial", "pmeta":
+	case "pdial", "pmeta", "drop":
 		return fmt.Sprintf("%s(c%d)", o.K, o.S)
 	}
 	return o.K
@@ -129,6 +129,7 @@ type fdPair struct {
 	a, b  gonet.Conn // a: the peer's side, b: the directory's side
 	owner string
 	relay *fdRelay
+	seq   int64
 	once  sync.Once
 	dead  int32
 
@@ -207,6 +208,8 @@ func (p *fdPair) pumpDown() { // directory -> peer
 	}
 }
 
+var fdPairSeq int64
+
 type fdRelay struct {
 	ln    gonet.Listener
 	mu    sync.Mutex
@@ -234,7 +237,7 @@ func newFdRelay(path, target string) (*fdRelay, error) {
 				continue
 			}
 			r.mu.Lock()
-			p := &fdPair{a: a, b: b, owner: r.owner, relay: r, held: make(chan uint32, 1), decision: make(chan string, 1), lost: make(chan struct{})}
+			p := &fdPair{a: a, b: b, owner: r.owner, relay: r, seq: atomic.AddInt64(&fdPairSeq, 1), held: make(chan uint32, 1), decision: make(chan string, 1), lost: make(chan struct{})}
 			r.pairs = append(r.pairs, p)
 			r.mu.Unlock()
 			atomic.AddInt64(&r.n, 1)
@@ -261,6 +264,12 @@ func (r *fdRelay) as(owner string, f func() error) error {
 	}
 	time.Sleep(100 * time.Microsecond)
 	return err
+}
+
+func (r *fdRelay) setOwner(owner string) {
+	r.mu.Lock()
+	r.owner = owner
+	r.mu.Unlock()
 }
 
 func (r *fdRelay) of(owner string) []*fdPair {
@@ -317,6 +326,7 @@ type fdServer struct {
 	sess  bus.Session
 	srv   bus.Server
 	up    bool
+	relay *fdRelay   // in front of the server's own end point (connections of clients can be cut)
 	probe bus.Client // a connection of the harness to the server's own end point
 	// the operation in progress
 	k      int
@@ -335,6 +345,7 @@ type fdClient struct {
 	id    int // vhook identity of the session
 	owner string
 	armed int32
+	where string // "" | "enter" | "dialed": the gate the Proxy goroutine is parked at
 	at    chan string
 	goOn  chan struct{}
 	res   chan fdProxyRes
@@ -366,6 +377,9 @@ var (
 	fdCur     *fdWorld
 	fdPools   = map[int]map[string]bool{} // session identity -> pooled addresses
 	fdStores  = map[int]int{}             // session identity -> service lists stored
+	fdLastCh  = map[int]bus.Channel{}     // session identity -> the channel it connected last
+	fdLastAd  = map[int]string{}          // ... and the address
+	fdShut    = map[int]bool{}            // end point identity -> shut down
 	fdInstall sync.Once
 )
 
@@ -387,10 +401,22 @@ func fdClientOf(s interface{}) *fdClient {
 func fdInstallHooks() {
 	fdInstall.Do(func() {
 		vhook.SetSink(func(e vhook.Event) {
+			if e.Comp == "endpoint" && e.Ev == "shutdown" {
+				fdMu.Lock()
+				fdShut[e.Inst] = true
+				fdMu.Unlock()
+				return
+			}
 			if e.Comp != "session" {
 				return
 			}
 			switch e.Ev {
+			case "connected":
+				ch, _ := kvOf(e, "channel").(bus.Channel)
+				addr, _ := kvOf(e, "addr").(string)
+				fdMu.Lock()
+				fdLastCh[e.Inst], fdLastAd[e.Inst] = ch, addr
+				fdMu.Unlock()
 			case "insert", "closed":
 				addr, _ := kvOf(e, "addr").(string)
 				fdMu.Lock()
@@ -456,6 +482,14 @@ func newFdWorld(nsrv, ncl int, names []string) (*fdWorld, error) {
 		if n := len(w.relay.of(s.owner)); n != 1 {
 			return nil, fmt.Errorf("server %d holds %d connections to the directory, expected 1", i, n)
 		}
+		sp := unixPath(s.addr)
+		if err = os.Rename(sp, sp+".s"); err != nil {
+			return nil, err
+		}
+		if s.relay, err = newFdRelay(sp, sp+".s"); err != nil {
+			return nil, err
+		}
+		s.relay.setOwner("harness")
 		if err = s.dialProbe(); err != nil {
 			return nil, fmt.Errorf("probe connection to server %d: %v", i, err)
 		}
@@ -522,7 +556,9 @@ func (w *fdWorld) close() {
 		}
 		sess := s.sess
 		bounded(func() error { return sess.Terminate() })
+		s.relay.close()
 		os.Remove(unixPath(s.addr))
+		os.Remove(unixPath(s.addr) + ".s")
 	}
 	if w.raw != nil {
 		w.raw.ep.Close()
@@ -739,6 +775,35 @@ func (w *fdWorld) observe(step int, op fdOp, exp fdObs, expEv []fdEv, expRq []fd
 	return nil
 }
 
+// label: who makes the connections to the service servers from now on
+func (w *fdWorld) label(owner string) {
+	for _, s := range w.srv {
+		s.relay.setOwner(owner)
+	}
+}
+
+// waitShut: the connection client c has just made (it is parked behind it) has been closed under it: wait until its
+// end point knows, so that what the session does next does not depend on the scheduler
+func (w *fdWorld) waitShut(c *fdClient, addr string) {
+	fdMu.Lock()
+	ch, ad := fdLastCh[c.id], fdLastAd[c.id]
+	fdMu.Unlock()
+	if c.where != "dialed" || ch == nil || (addr != "" && ad != addr) {
+		return
+	}
+	id := vhook.ID(ch.EndPoint())
+	dl := time.Now().Add(fdBound)
+	for time.Now().Before(dl) {
+		fdMu.Lock()
+		ok := fdShut[id]
+		fdMu.Unlock()
+		if ok {
+			return
+		}
+		time.Sleep(100 * time.Microsecond)
+	}
+}
+
 // waitSession: the session has refreshed its list once per event, and holds no connection to a server that stopped
 func (w *fdWorld) waitSession(who string, id int, op fdOp, exp fdObs) *fdFail {
 	dl := time.Now().Add(fdBound)
@@ -767,6 +832,7 @@ func (w *fdWorld) waitSession(who string, id int, op fdOp, exp fdObs) *fdFail {
 
 // look: list, look-ups and proxies as one session sees them
 func (w *fdWorld) look(step int, op fdOp, exp fdObs, sess bus.Session, dir services.ServiceDirectoryProxy, who string) *fdFail {
+	w.label("observer")
 	var list []services.ServiceInfo
 	if err := bounded(func() error { var e error; list, e = dir.Services(); return e }); err != nil {
 		return ff("directory-unreachable", "after %s: services() of %s: %v", op, who, err)
@@ -1045,8 +1111,27 @@ func (w *fdWorld) do(step int, st fdStep, prev *fdObs, last bool) *fdFail {
 			return ff("operation-hangs", "%s does not return within %v", op, tBound)
 		}
 		s.up = false
+		for _, c := range w.cl {
+			w.waitShut(c, s.addr)
+		}
+	case "drop":
+		c := w.cl[op.S-1]
+		var last *fdPair
+		for _, s := range w.srv {
+			for _, p := range s.relay.of(c.owner) {
+				if atomic.LoadInt32(&p.dead) == 0 && (last == nil || p.seq > last.seq) {
+					last = p
+				}
+			}
+		}
+		if last == nil || c.where != "dialed" {
+			hlib.Fatal("federation: drop: session %d has made no connection (parked at %q)", c.i, c.where)
+		}
+		last.cut()
+		w.waitShut(c, "")
 	case "pstart":
 		c := w.cl[op.S-1]
+		w.label(c.owner)
 		atomic.StoreInt32(&c.armed, 1)
 		res := make(chan fdProxyRes, 1)
 		c.res = res
@@ -1055,10 +1140,11 @@ func (w *fdWorld) do(step int, st fdStep, prev *fdObs, last bool) *fdFail {
 			res <- fdProxyRes{p, err}
 		}()
 		select {
-		case <-c.at:
+		case c.where = <-c.at:
 			got = fdOut{"pend", "", exp.Out.V}
 		case r := <-res:
 			atomic.StoreInt32(&c.armed, 0)
+			c.where = ""
 			got = fdClassify(c.sess, r, fmt.Sprintf("c%d", step))
 		case <-time.After(tBound):
 			return ff("client/proxy-hangs", "%s does not return within %v", op, tBound)
@@ -1072,12 +1158,16 @@ func (w *fdWorld) do(step int, st fdStep, prev *fdObs, last bool) *fdFail {
 		}
 	case "pdial", "pmeta":
 		c := w.cl[op.S-1]
+		w.label(c.owner)
 		c.goOn <- struct{}{}
 		select {
 		case pt := <-c.at:
+			c.where = pt
 			got = fdOut{"pend", pt, 0}
 		case r := <-c.res:
 			atomic.StoreInt32(&c.armed, 0)
+			c.where = ""
+			w.label("harness")
 			got = fdClassify(c.sess, r, fmt.Sprintf("c%d", step))
 		case <-time.After(tBound):
 			return ff("client/proxy-hangs", "%s: Proxy does not return within %v", op, tBound)
